@@ -246,6 +246,26 @@ def run(case, ctx):
                             raise Violation("visible stream content differs from the flushed prefix: " + what)
                     except obs.DecodeError as e:
                         raise Violation("visible stream prefix does not decode (%s): %s" % (e, what))
+            if accepted and case["tmpdir"] and case.get("xfs") == "nested":
+                # OVNI_TMPDIR lies below the trace directory: the half-relocated streams are visible too.
+                # (S1) an accepted trace holds, for every thread that has a stream.json anywhere in it,
+                # the flushed bytes of that thread beside one of them.
+                for t in range(nth):
+                    ppath = os.path.normpath(os.path.join(thread_dir(primary_root, t), "stream.obs"))
+                    ft = F.get(ppath, 0)
+                    locs = [x for x in (thread_dir(r.tracedir, t), thread_dir(primary_root, t)) if os.path.exists(os.path.join(x, "stream.json"))]
+                    if not locs or ft == 0:
+                        continue
+                    sizes = []
+                    for x in locs:
+                        try:
+                            sizes.append(os.path.getsize(os.path.join(x, "stream.obs")))
+                        except OSError:
+                            sizes.append(0)
+                    if max(sizes) < ft:
+                        raise Violation("S1: ovniemu -l accepted the trace although the stream of thread %d, visible in it (%s), lacks flushed events: "
+                                        "%s (TMPDIR below the trace directory), %d bytes flushed, %s bytes beside its stream.json"
+                                        % (70 + t, ", ".join(os.path.relpath(x, r.tracedir) for x in locs), label, ft, sizes))
 
         for (s, k) in points:
             wd = os.path.join(base, "k")
